@@ -13,7 +13,7 @@ RULE = ('Base documents: fixtures, generated valid documents, documents with 1-4
         'acknowledgement are identical for the original and every re-encoding. non-trivial = distinct (document, encoding) pairs where the document has >=1 error.')
 ASSUMPTIONS = ['message strings and HTML are not compared (they legitimately contain delimiters)', 'source line numbers are compared as segment ordinals, which re-encoding preserves',
                'acknowledgement envelope lines (ISA/GS/ST/SE/GE/IEA, which carry timestamps and generated control numbers) are excluded']
-REQUIRED_COUNTERS = ['bases:with-trailing-separator-or-leading-blank', 'bases:longer-than-one-read-buffer', 'bases', 'bases:with-errors', 'bases:valid', 'encodings', 'encodings:control-char-delimiter', 'encodings:eol:', 'encodings:eol:\\r\\n', 'encodings:eol:\\n']
+REQUIRED_COUNTERS = ['bases:with-empty-or-blank-segment', 'bases:with-trailing-separator-or-leading-blank', 'bases:longer-than-one-read-buffer', 'bases', 'bases:with-errors', 'bases:valid', 'encodings', 'encodings:control-char-delimiter', 'encodings:eol:', 'encodings:eol:\\r\\n', 'encodings:eol:\\n']
 MIN_CASES = {'quick': 900, 'thorough': 30000}
 WATCHDOG_S = {'quick': 1200, 'thorough': 7200}
 
@@ -141,13 +141,22 @@ def run(ctx):
         if rng.random() < 0.25:
             text, names = mutate.mutate(rng, text)
             kinds += names
-            if 'truncate' in ' '.join(names) or 'blank-segment' in names or 'empty-segment' in names:
-                continue        # re-encoding goes through the reference tokenizer, which normalises these away
+            if 'truncate' in ' '.join(names):
+                continue        # what follows the last terminator is not a segment: the re-encoder drops it
+            if 'blank-segment' in names or 'empty-segment' in names:
+                ctx.count('bases:with-empty-or-blank-segment')
         if rng.random() < 0.2:
             # a segment ending in element separators / beginning with blanks: reader-level findings that must not depend on which characters delimit
             terms0, segs0 = mutate.parse(text)
             (mutate.m_trailing_separator if rng.random() < 0.6 else mutate.m_leading_blank)(rng, terms0, segs0)
             text = mutate.render(terms0, segs0, '\n')
+            if rng.random() < 0.3:
+                # a terminator directly after a terminator (after its line break): an empty segment, whatever the layout
+                k0 = rng.randrange(2, max(3, text.count('~\n') - 2))
+                parts0 = text.split('~\n')
+                parts0[k0] = parts0[k0] + '~\n' + rng.choice(['', '  '])
+                text = '~\n'.join(parts0)
+                ctx.count('bases:with-empty-or-blank-segment')
             kinds.append('trailing-separator-or-leading-blank')
             ctx.count('bases:with-trailing-separator-or-leading-blank')
         case = {'map': e['file'], 'faults': kinds, 'charset': cs, 'k': ['c12', ctx.shard, k], 'text': text if len(text) < 150000 else None}
